@@ -74,7 +74,7 @@ def configs(tier, seed):
     ma1, ma2, ma3 = lit("int", A1b, "", (3,)), lit("int", A2b, "", (2, 2)), lit("int", A1[:2], "", (2,))
     B = lambda d, m, r, l, **kw: dict({"def": d, "mod": m, "ref": r, "late": l}, **kw)
     cfgs = [
-        dict(name="units", T=[a_f, a_i, a_d, gx_c, px], M=[m_f2, m_f, m_i, m_s], SL=[], HU=[u1, u2, "s"],
+        dict(name="units", T=[a_f, a_i, a_d, gx_c] + ([px] if th else []), M=[m_f2, m_f, m_i, m_s], SL=[], HU=[u1, u2, "s"],
              bounds=B(3 if th else 2, 2 if th else 1, 1, 1, kinds=["inj"]), modes=[]),
         dict(name="imports", T=[a_i, a_d, gx_c, gx_i, gkz, gy, gqx, p_, px] if th else [a_d, gx_c, gkz, gqx, p_, px],
              M=[m_f2, m_i0, m_b, m_t], SL=[], HU=[],
@@ -331,6 +331,11 @@ class C17Jobs:
         return self._run(name, None)
 
 
+def replay_any(item):
+    kind, x = item
+    return replay_record(x) if kind == "rec" else replay_hist(x) if kind == "hist" else Q.replay_list(x)
+
+
 def slim(rec):
     return {k: rec[k] for k in ("mode", "prog", "ideal", "mach", "tags", "snap", "_style", "_cfg") if k in rec}
 
@@ -389,6 +394,29 @@ def run(replay=None):
     jobs["nocopy"] = lambda sub, w: run_tlc(sub, cf0, copy_on_parse=False, emit=False, workers=w)
     jobs.update(Q.tlc_jobs(tier, seed))
     get = C17Jobs(jobs, wd, parallel=(tier == "quick")).get
+    pre = {}
+    if tier == "quick":            # one worker pool for everything that is replayed (pool start-up is not free)
+        res_all = {k: get(k) for k in list(jobs)}
+        get = res_all.__getitem__
+        items = []
+        for cf in cfgs:
+            for x in res_all["cfg:" + cf["name"]].records or []:
+                x["_cfg"] = cf["name"]
+                x["_style"] = (zlib.crc32(json.dumps(x["prog"], sort_keys=True).encode()) + 7 * seed) % 12
+                items.append(("rec", x))
+        items += [("hist", h) for h in res_all["base"].records or []]
+        items += [("qlist", r) for r in res_all["query"].records or []]
+        out = C.pmap(replay_any, items, chunk=16)
+        for (kind, x), o in zip(items, out):
+            pre.setdefault(kind, []).append(o)
+    def pm(kind, fn, xs, pos=[0, 0, 0]):
+        """results of fn over xs: taken from the single quick-tier pool run, else computed now"""
+        if kind in pre:
+            i = {"rec": 0, "hist": 1, "qlist": 2}[kind]
+            part = pre[kind][pos[i]:pos[i] + len(xs)]
+            pos[i] += len(xs)
+            return part
+        return C.pmap(fn, xs)
     stats, devs, samples = collections.Counter(), collections.Counter(), []
     nontrivial = 0
     for cf in cfgs:                                   # one configuration at a time (bounded memory)
@@ -404,7 +432,7 @@ def run(replay=None):
         for x in recs:
             x["_cfg"] = cf["name"]             # layout / number format: a function of the program and the seed
             x["_style"] = (zlib.crc32(json.dumps(x["prog"], sort_keys=True).encode()) + 7 * seed) % 12
-        results = C.pmap(replay_record, recs)
+        results = pm("rec", replay_record, recs)
         sampled = False
         for rec, res in zip(recs, results):
             judge(V, rec, res, stats)
@@ -425,7 +453,7 @@ def run(replay=None):
     if rb.violated:
         raise C.MachineryError(f"DipBase: {rb.violated} violated with CopyMode deep:\n{rb.cex[:1200]}")
     hists = rb.records
-    hres = C.pmap(replay_hist, hists)
+    hres = pm("hist", replay_hist, hists)
     nh_bad = 0
     for h, det in zip(hists, hres):
         if det is None:
@@ -450,7 +478,7 @@ def run(replay=None):
     # sensitivity of BaseUnchanged: the parse that does not copy the base environment must be caught by TLC
     r0 = get("nocopy")
     # ---- growth beyond the property (DESIGN 6): node selection and user functions
-    qcov = Q.run_stage(V, get, tier, seed)
+    qcov = Q.run_stage(V, get, tier, seed, pm)
     states += qcov.pop("_states"); trans += qcov.pop("_transitions"); nrec += qcov.pop("_n")
     samples.append(qcov.pop("_sample"))
     V.cov.update(qcov)
